@@ -29,6 +29,9 @@ CLAIMED["C04"] = ("proof", CLAIMED["C12"][1],
 CLAIMED["C13"] = ("proof", CLAIMED["C12"][1] + "; bounded enumeration of synthetic reports through the real formatters",
     "contracts on the real bodies behind the exit statuses (is_compliant, the lint callback on all four output branches, ProjectSubsetReport.generate / is_compliant / files_without_*, the lint-file callback: exit 1 iff a line is printed); the agreement of the rendered texts and the JSON counters is exercised by a bounded enumeration (labelled bounded)",
     "formatter loops are not under contract (bounded check only); json.dumps / click.echo assumed", "4.13")
+CLAIMED["C16"] = ("proof", CLAIMED["C12"][1] + "; exhaustive finite enumeration of the TOML key x type grid; bounded CLI runs",
+    "exception-flow contracts (raises clauses) on the real bodies of ReuseTOML.from_toml / from_file, ReuseDep5.from_file, ClickObj.project (only click.UsageError escapes) and the worker callable (nothing escapes; report xor error); the statement's grid 'each key x each TOML type' enumerated completely through the real from_toml; every subcommand run on malformed projects (bounded)",
+    "raise sets of tomlkit / python-debian / file reads are assumed; from_dict is decided by the exhaustive grid, not by a contract on its body; permission errors not exercised (root)", "4.16")
 NOT_YET = "check not built yet in this session (work in progress; see DESIGN.md section 4 for the planned contracts)"
 props = [json.loads(l) for l in open(os.path.join(V, "properties.jsonl"))]
 checks, na = [], []
